@@ -172,6 +172,27 @@ GraphsS(shape, profs, K) ==
 BaseProfiles == {"plain", "restat", "gen", "two", "rsp", "depfile", "gcc", "msvc", "gccgen", "restatgcc", "iout"}
 SmallShapes == {"single", "chain2", "chain3", "fanin", "fanout", "implicit", "oonly", "mixed", "indep", "alias", "aliasoo", "aliasooim", "aliasooex", "aliasoo2", "midoo", "valid", "validrev", "validch"}
 
+\* a command line (or response file) is changed, built, and changed back: the records of the build in between decide
+\* whether the third build sees the change (C01: "command-line, response-file ... changes")
+GenStmts(gr) == {i \in Cmds(gr) : gr.stmts[i].gen}
+FlipHists(gr) ==
+  UNION { { <<Build(Roots(gr), jj[1], 1), [op |-> o, s |-> i], c, Build(Roots(gr), jj[2], 1), [op |-> "verback", s |-> i], Build(Roots(gr), 2, 1), Build(Roots(gr), 2, 1)>> :
+              i \in {x \in Cmds(gr) \ GenStmts(gr) : o = "rspver" => gr.stmts[x].rsp}, jj \in {<<1, 2>>, <<2, 1>>, <<2, 2>>},
+              \* together with the change another statement - a generator statement if there is one - has to run again
+              c \in {[op |-> "del", f |-> gr.stmts[x].outs[1]] : x \in GenStmts(gr)} \cup {[op |-> "touch", f |-> gr.srcs[1]]} } :
+          o \in {"ver", "rspver"} }
+\* a generator statement next to statements that share nothing with it (ninja closes the build log before it starts a
+\* generator statement and reopens it for the next record)
+FlipGraphs ==
+  UNION { { Graph(<<Mk(1, C(<<"s1">>), "gen"), Mk(2, C(<<"s2">>), p2), Mk(3, C(<<"o2">>), "plain")>>),
+            Graph(<<Mk(1, C(<<"s2">>), p2), Mk(2, C(<<"s1">>), "gen"), Mk(3, C(<<"o1">>), "plain")>>) } : p2 \in {"plain", "rsp", "restat", "two"} }
+FamFlip(K, CH) ==
+  UNION { {Scn(gr, h) : h \in FlipHists(gr)} : gr \in FlipGraphs }
+  \cup
+  UNION { UNION { {Scn(gr, h) : h \in Pick(CH, FlipHists(gr))} :
+                  gr \in {x \in GraphsS(sh, {"plain", "restat", "gen", "rsp", "gcc", "two"}, 3 * K) : GenStmts(x) # {}} \cup GraphsS(sh, {"plain", "restat", "rsp"}, 1) } :
+          sh \in {"chain2", "chain3", "fanin", "fanout", "indep", "mixed", "implicit", "oonly"} }
+
 \* incremental-build family (C01, C02, C03, C10): shape x profile assignment x single change
 FamInc(K, CH) ==
   UNION { UNION { {Scn(gr, <<Build(Roots(gr), 2, 1), c, Build(Roots(gr), 2, 1), Build(Roots(gr), 2, 1)>>) : c \in Pick(CH, Changes(gr))} :
@@ -246,7 +267,8 @@ FamRand(K, CH) ==
 PoolDecls == <<[name |-> "p1", depth |-> 1], [name |-> "p2", depth |-> 2]>>
 PoolNames == {"", "p1", "p2", "console"}
 WithPools(gr, pa) == [gr EXCEPT !.pools = PoolDecls,
-                                !.stmts = [i \in DOMAIN gr.stmts |-> IF gr.stmts[i].phony THEN gr.stmts[i] ELSE [gr.stmts[i] EXCEPT !.pool = pa[i]]]]
+                                \* phony statements can be bound to a pool too (they take a slot of it while they wait in the queue)
+                                !.stmts = [i \in DOMAIN gr.stmts |-> [gr.stmts[i] EXCEPT !.pool = pa[i]]]]
 BX(targets, j, k, extra) == extra @@ Build(targets, j, k)
 PoolShapes == {"wide4", "widejoin", "widephony", "fanout", "fanin", "diamond", "group", "alias", "chain3", "indep"}
 PoolGraphs(profs, K) ==
@@ -257,7 +279,18 @@ PoolGraphsOO(K) ==
   UNION { {WithPools(gr, pa) : pa \in RandomSubset(K, [1..Len(gr.stmts) -> {"p1", "p1", "console", ""}])} :
           gr \in { Graph(<<Mk(1, C(<<"s1">>), k1), Mk(2, C(<<"s2">>), "plain"), Mk(3, C(<<"s2">>), "plain"), Mk(4, Sk(<<"s1">>, <<>>, <<"o1">>, <<>>, FALSE), "plain"),
                            Mk(5, Sk(<<"s2">>, <<>>, <<"o1">>, <<>>, FALSE), k5)>>) : k1 \in {"plain", "restat"}, k5 \in {"plain", "restat"} } }
+\* a phony statement bound to a pool becomes ready while the commands of that pool outnumber its depth
+PhonyPoolGraphs ==
+  { [Graph(<< St1(1, <<"o1">>, <<"s1">>, <<>>),
+              [St1(2, <<"o2">>, <<"o1">>, <<>>) EXCEPT !.phony = TRUE, !.pool = q],
+              [St1(3, <<"o3">>, <<"s1">>, <<>>) EXCEPT !.pool = q],
+              [St1(4, <<"o4">>, <<"s2">>, <<>>) EXCEPT !.pool = q],
+              [St1(5, <<"o5">>, <<"o2">>, <<>>) EXCEPT !.pool = q5],
+              [St1(6, <<"o6">>, <<"s2">>, <<>>) EXCEPT !.pool = q] >>) EXCEPT !.pools = PoolDecls] :
+      q \in {"p1", "p2", "console"}, q5 \in {"", "p1"} }
 FamPools(K, CH) ==
+  UNION { {Scn(gr, <<BX(SetToSeq(AllOutsG(gr)), j, 1, [fail |-> <<>>])>>) : j \in {2, 3, 4}} : gr \in PhonyPoolGraphs }
+  \cup
   UNION { {Scn(gr, <<BX(Roots(gr), jk[1], jk[2], [fail |-> f])>>) :
               jk \in {1, 2, 3} \X {1, 0}, f \in {<<>>} \cup Pick(1, {FailRec(S, 1, FALSE) : S \in FailSets(gr)})}
           \* incremental builds: part of the plan is clean or gets pruned by restat while pool statements wait
@@ -584,6 +617,7 @@ ParCH == IF "CH" \in DOMAIN IOEnv THEN atoi(IOEnv.CH) ELSE 3
 Family(name) ==
   CASE name = "inc" -> FamInc(ParK, ParCH)
     [] name = "inc2" -> FamInc2(ParK, ParCH)
+    [] name = "flip" -> FamFlip(ParK, ParCH)
     [] name = "partial" -> FamPartial(ParK, ParCH)
     [] name = "sched" -> FamSched(ParK, ParCH)
     [] name = "fail" -> FamFail(ParK, ParCH)
